@@ -160,7 +160,7 @@ class Project(object):
                     n += k
                     lower_getsetattr(m.tree)
                     ext = extern_helpers(m.tree, m.name, raw_trees)
-                    n += inline_helpers(m.tree, ext)
+                    n += inline_helpers(m.tree, ext, m.name)
                     n += inline_expression_helpers(m.tree, ext)
                 if not n:
                     break
